@@ -86,8 +86,9 @@ CLAIMS.update({
         category="other", design="DESIGN.md §3 C19",
         technique="static analysis: loop body analysed once with the lag symbolic; stored value/index compared with the definition as normal forms; affine index-coverage of allocations; degree queries",
         text=("Structure-function estimator: stored value == mean((phase[:-i]-phase[i:])**2) at index i/step, written-index set vs "
-              "allocation (an element of a numpy.empty result never written is a violation; lag 0 must be 0), degree 2 in the data; "
-              "temporal power spectrum and its frequency axis equal their definitions as normal forms, same truncation. Agreement "
+              "allocation (an element of a numpy.empty result never written is a violation; lag 0 must be 0), number of lags bounded by the "
+              "extent of the shifted axis, degree 2 in the data; temporal power spectrum and its frequency axis equal their definitions "
+              "as normal forms (every bin strictly below Nyquist, ceil(n/2) of them), same truncation. Agreement "
               "with analytic structure functions on generated screens is not decided."),
         note="Trusted: numpy.fft.fftfreq contract; numpy.empty returns uninitialised memory; step is a positive integer."),
     "C18": dict(
@@ -107,7 +108,7 @@ CLAIMS.update({
         technique="static analysis: per-path normal forms of the centroiders; homogeneity-degree queries; branch-sibling agreement; comparison with oracle definitions",
         text=("Scale invariance of every centroider on every rank path (degree 0 in the image), agreement of the 2-D and N-D threshold "
               "transforms and per-frame reductions (stack = frames; no reduction over a whole stack where the contract is per frame), moment formulas and (x, y) order, rank-threshold of "
-              "brightest_pixel, cross-correlation formula and padding offset (both components), no array carried from one frame to the next "
+              "brightest_pixel, cross-correlation formula and padding offset (n p)//2 - n//2 (both components), no array carried from one frame to the next "
               "through a second name, quad-cell numerator. Exact shift equivariance and "
               "correlation peak position are not decided. Known findings: quadCell not normalised; centre_of_gravity 2-D vs N-D."),
         note="Trusted: homogeneity table of numpy reductions in sa/plf.py; min_threshold = 0; images non-negative."),
@@ -123,7 +124,8 @@ CLAIMS.update({
         category="other", design="DESIGN.md §3 C16",
         technique="static analysis: normal forms of binning (summarised loops), zoom paths and radial reductions decomposed; library constructors resolved in the installed SciPy and inspected for an unconditional raise",
         text=("Binning = strided accumulation over the last two axes with one n (both rank branches); both zoom entry points use a "
-              "callable spline constructor on pixel-index nodes, evaluate on linspace(0, n-1, new), split complex data as "
+              "callable spline constructor on pixel-index nodes, evaluate on linspace(0, n-1, new) rows first (the result has the requested "
+              "shape) and accept an integer size, split complex data as "
               "f(real)+1j f(imag) with the same arguments (also through a shared recursive helper); azimuthal average is a convex combination over nested ring masks with full allocation coverage; "
               "encircled energy starts at (0,0), is normalised once by the total, uses growing nested apertures. Spline exactness and "
               "monotone interpolation are not decided."),
